@@ -295,12 +295,11 @@ func (ex *Exec) conv(tDst, tSrc types.Type, x Val) Val {
 			if !ok {
 				// symbolic bytes: one rune per byte as long as every byte is ASCII (decided per byte, no fork
 				// when the byte's domain is ASCII); anything else is outside what the engine models
-				cells := make([]Val, len(s))
-				for i, b := range s {
-					if !ex.branch(Cmp(OpULt, b, byteConsts[0x80])) {
-						panic(inconclusive{"[]rune(string with symbolic non-ASCII bytes)"})
-					}
-					cells[i] = Resize(b, 32, false)
+				var cells []Val
+				for i := 0; i < len(s); {
+					r, size := ex.decodeRuneSym(s[i:])
+					cells = append(cells, r)
+					i += size
 				}
 				return SliceV{A: cells}
 			}
@@ -328,25 +327,27 @@ func (ex *Exec) conv(tDst, tSrc types.Type, x Val) Val {
 					}
 					return r
 				}
-				var rs []rune
+				var out Str
 				for _, c := range xv.A {
 					t := c.(*Term)
-					if !t.IsConst() {
-						panic(inconclusive{"string([]rune) with symbolic rune"})
+					if t.IsConst() {
+						out = append(out, mkStr(string(rune(t.Signed())))...)
+					} else {
+						out = append(out, ex.encodeRuneSym(t)...)
 					}
-					rs = append(rs, rune(t.Signed()))
 				}
-				return mkStr(string(rs))
+				return out
 			case *Term:
 				// integer -> string (rune)
 				if !xv.IsConst() {
-					// single byte < 0x80 case via fork
-					small := Cmp(OpULt, Resize(xv, 64, false), Const(64, 0x80))
-					if ex.branch(small) {
-						return Str{Resize(xv, 8, false)}
+					if xv.W <= 32 {
+						return ex.encodeRuneSym(xv)
 					}
-					v := ex.concretize(xv, "rune to string")
-					return mkStr(string(rune(signExt(v, xv.W))))
+					// a wider integer: in range of a rune -> encode, otherwise U+FFFD
+					if ex.branch(Cmp(OpULt, xv, Const(xv.W, 0x110000))) {
+						return ex.encodeRuneSym(Resize(xv, 32, false))
+					}
+					return mkStr("\uFFFD")
 				}
 				_, signed, _ := intWidth(us)
 				if signed {
@@ -766,12 +767,10 @@ func (ex *Exec) next(instr *ssa.Next, it Val) Val {
 			it.pos++
 			return Tuple{True, Const(64, uint64(pos)), Const(32, b.Val)}
 		}
-		// general case: decode via the interpreted utf8.DecodeRuneInString
-		fn := ex.eng.funcByName("unicode/utf8", "DecodeRuneInString")
-		res := ex.call(ex.cur, fn, []Val{it.s[pos:]}).(Tuple)
-		size := ex.concreteInt(res[1], "rune size")
-		it.pos += int(size)
-		return Tuple{True, Const(64, uint64(pos)), res[0]}
+		// general case: symbolic UTF-8 decoding (utf8sym.go)
+		r, size := ex.decodeRuneSym(it.s[pos:])
+		it.pos += size
+		return Tuple{True, Const(64, uint64(pos)), r}
 	}
 	panic(inconclusive{fmt.Sprintf("next on %T", it)})
 }
